@@ -338,6 +338,10 @@ def shared_expect(text, sheet_index):
     if m:
         v = val(m.group(1))
         return None if v is None else lib.norm(v + 1)
+    m = re.match(r"^(\$?[A-Z]\$?\d+)\*2$", text)
+    if m:
+        v = val(m.group(1))
+        return None if v is None else lib.norm(v * 2)
     m = re.match(r"^(\$?[A-Z]\$?\d+)\+(\$?[A-Z]\$?\d+)$", text)
     if m:
         a, b = val(m.group(1)), val(m.group(2))
@@ -416,6 +420,65 @@ def run_shared(ai, si_shape, pi, ctx):
         got = lib.eval_addr(model, addr)
         ctx.check('%s/%s/evaluate' % (key00, coord), got, want,
                   tags + ['oracle:evaluate'], inputs, True)
+
+
+def run_shared_multi(ctx):
+    """Two shared-formula groups on one sheet (si 0 and 1) that touch, a third
+    on the second sheet with the same anchor text, members with cached
+    values of each type."""
+    titles = ['Sheet1', 'My Sheet']
+    sheets = []
+    for i, t in enumerate(titles):
+        cells = {}
+        for r in range(1, 6):
+            for c in 'ABCD':
+                cells['%s%d' % (c, r)] = {'form': 'n',
+                                          'v': data_value(i, c, r)}
+        sheets.append((t, cells))
+    groups = [
+        (0, 0, 'F', 1, 3, 1, 'A1+1'),       # sheet, si, col, row, rows, cols
+        (0, 1, 'G', 1, 3, 2, '$A1*2'),
+        (1, 0, 'F', 1, 3, 1, 'A1+1'),       # same text as group 0, other sheet
+    ]
+    expect = {}
+    for sh, si, col, row, nr, nc, anchor in groups:
+        last = '%s%d' % (chr(ord(col) + nc - 1), row + nr - 1)
+        for dr in range(nr):
+            for dc in range(nc):
+                coord = '%s%d' % (chr(ord(col) + dc), row + dr)
+                text = R.shift_formula(anchor, dr, dc)
+                cached = 1000 * (si + 1) + dr * 10 + dc
+                spec = {'form': 'shared-master', 'f': anchor,
+                        'ref': '%s%d:%s' % (col, row, last), 'si': si} \
+                    if (dr, dc) == (0, 0) else {'form': 'shared-member',
+                                                'si': si}
+                spec.update({'ct': 'n', 'cv': cached})
+                sheets[sh][1][coord] = spec
+                expect[(sh, coord)] = (text, cached)
+    inputs = {'family': 'shared-multi'}
+    try:
+        model = load(sheets)
+    except Exception as exc:  # noqa: BLE001
+        ctx.fail('C11/shared-multi/load', ['shared'], inputs, 'loads',
+                 lib.exc_obs(exc))
+        return
+    for (sh, coord), (text, cached) in sorted(expect.items()):
+        addr = '%s!%s' % (titles[sh], coord)
+        key0 = 'C11/shared-multi/%s' % addr
+        cell = model.cells.get(addr)
+        got_f = cell.formula.formula if cell is not None and \
+            cell.formula is not None else None
+        tags = ['shared', 'shared:several-groups']
+        ctx.check(key0 + '/formula', 'formula:%s' % got_f,
+                  'formula:=%s' % text, tags + ['oracle:formula-text'],
+                  inputs, True)
+        ctx.check(key0 + '/cached', lib.observe(model.get_cell_value, addr),
+                  lib.norm(cached), tags + ['oracle:stored-value'], inputs,
+                  True)
+        want = shared_expect(text, sh)
+        if want is not None:
+            ctx.check(key0 + '/evaluate', lib.eval_addr(model, addr), want,
+                      tags + ['oracle:evaluate'], inputs, True)
 
 
 # ---- family: defined names ---------------------------------------------------------
@@ -507,6 +570,7 @@ def plan(tier):
     for ai in range(len(ANCHORS)):
         shards.append({'family': 'shared', 'ai': ai})
     shards.append({'family': 'names'})
+    shards.append({'family': 'shared-multi'})
     return shards
 
 
@@ -531,6 +595,8 @@ def run_shard(shard, ctx):
             for p in range(len(ANCHOR_POS)):
                 run_shared(shard['ai'], s, p, ctx)
         ctx.sample({'family': f, 'anchor': ANCHORS[shard['ai']][1]})
+    elif f == 'shared-multi':
+        run_shared_multi(ctx)
     else:
         run_names(ctx)
 
@@ -545,6 +611,8 @@ def replay(inputs, ctx):
         run_sheets(inputs['order'], inputs['mask'], ctx)
     elif f == 'shared':
         run_shared(inputs['ai'], inputs['shape'], inputs['pi'], ctx)
+    elif f == 'shared-multi':
+        run_shared_multi(ctx)
     else:
         run_names(ctx)
 
